@@ -470,7 +470,22 @@ func c08Run(c *core.Ctx, b core.Batch) {
 			c.SetAdd("resource_shapes", typ)
 			inHandler := r.Intn(2) == 0
 			env.nest = r.Intn(4) == 0
-			c08One(c, env, steps, rtyp, key, rname, inHandler, cfgDesc)
+			// every sixth script runs inside the callback of a query event, on the QueryRequest it
+			// is given: that is a Resource too. Its change, add and remove methods collect events
+			// for the query response instead of sending them, so the script keeps to the others.
+			inQuery := false
+			if k%6 == 5 {
+				var qs []c08Step
+				for _, st := range steps {
+					if (st.Ev == "custom" || st.Ev == "create" || st.Ev == "delete" || st.Ev == "reaccess") && st.Arg != "reserved" && st.Arg != "invalid" {
+						qs = append(qs, st)
+					}
+				}
+				if len(qs) > 0 {
+					steps, inHandler, inQuery = qs, false, true
+				}
+			}
+			c08One(c, env, steps, rtyp, key, rname, inHandler, inQuery, cfgDesc)
 			if done == 3 {
 				c.Sample(map[string]interface{}{"config": cfgDesc, "script": steps, "resource": rname, "in_handler": inHandler})
 			}
@@ -482,7 +497,7 @@ func c08Run(c *core.Ctx, b core.Batch) {
 	}
 }
 
-func c08One(c *core.Ctx, env *c08Env, steps []c08Step, typ, key, rname string, inHandler bool, cfgDesc map[string]interface{}) {
+func c08One(c *core.Ctx, env *c08Env, steps []c08Step, typ, key, rname string, inHandler, inQuery bool, cfgDesc map[string]interface{}) {
 	c.Eval(1)
 	env.mu.Lock()
 	env.log = env.log[:0]
@@ -490,7 +505,7 @@ func c08One(c *core.Ctx, env *c08Env, steps []c08Step, typ, key, rname string, i
 	pos := env.rig.C.Len()
 	env.rig.C.NoGoID = false
 	var callerG int64
-	var inbox string
+	var inbox, qinbox string
 	// expected log
 	var exp []string
 	nontrivial := false
@@ -516,6 +531,73 @@ func c08One(c *core.Ctx, env *c08Env, steps []c08Step, typ, key, rname string, i
 			c.Inconclusive("request.done not seen")
 			return
 		}
+	} else if inQuery {
+		done := make(chan struct{})
+		var once sync.Once
+		sent := make(chan struct{})
+		err := env.rig.S.With(rname, func(rs res.Resource) {
+			defer close(sent)
+			rs.QueryEvent(func(qr res.QueryRequest) {
+				if qr == nil {
+					return
+				}
+				ran := false
+				once.Do(func() { ran = true })
+				if !ran {
+					return
+				}
+				defer close(done)
+				callerG = mon.GoID()
+				for _, st := range steps {
+					env.outcome = st.Apply
+					try(func() { env.step(qr, nil, st) })
+				}
+			})
+		})
+		if err != nil {
+			c.Violation("C08/with-error", "With failed: "+err.Error(), nil)
+			return
+		}
+		if !waitCh(sent, 10*time.Second) {
+			c.Inconclusive("With callback did not run")
+			return
+		}
+		qsubj := ""
+		for _, m := range env.rig.C.Since(pos) {
+			if m.Subject == "event."+rname+".query" {
+				var qe struct {
+					Subject string `json:"subject"`
+				}
+				json.Unmarshal(m.Data, &qe)
+				qsubj = qe.Subject
+			}
+		}
+		if qsubj == "" {
+			if fl, _ := cfgDesc["connection_refuses_some_events"].(bool); !fl {
+				c.Inconclusive("query event not published")
+			}
+			return // (the flaky connection refused the query event itself)
+		}
+		qinbox = newInbox()
+		processed := make(chan struct{})
+		qdoneMap.Store(qinbox, processed)
+		if n := env.rig.C.Deliver(qsubj, qinbox, []byte(`{"query":"a=1"}`)); n != 1 {
+			c.Inconclusive("query request not delivered")
+			return
+		}
+		// the callback has run and the response to the query request has been sent
+		if !waitCh(done, 10*time.Second) || !waitCh(processed, 10*time.Second) {
+			c.Inconclusive("query callback did not run")
+			return
+		}
+		c.Obs("scripts_run_in_query_callbacks", 1)
+		var e2 []string
+		for _, s := range exp {
+			if s != "publish:pre" && s != "publish:reply" {
+				e2 = append(e2, s)
+			}
+		}
+		exp = e2
 	} else {
 		done := make(chan struct{})
 		err := env.rig.S.With(rname, func(rs res.Resource) {
@@ -548,6 +630,9 @@ func c08One(c *core.Ctx, env *c08Env, steps []c08Step, typ, key, rname string, i
 	obs := append([]c08Entry(nil), env.log...)
 	env.mu.Unlock()
 	for _, m := range env.rig.C.Since(pos) {
+		if inQuery && (m.Subject == qinbox || m.Subject == "event."+rname+".query") {
+			continue // the query event itself and the response to the query request
+		}
 		d := "publish:" + m.Subject
 		switch {
 		case m.Subject == inbox && isPreResponse(m.Data):
@@ -576,7 +661,7 @@ func c08One(c *core.Ctx, env *c08Env, steps []c08Step, typ, key, rname string, i
 		got = got[:len(got)-1]
 		delete(gs, 0)
 	}
-	desc := map[string]interface{}{"config": cfgDesc, "script": steps, "resource": rname, "in_handler": inHandler, "first_listener_sends_pong_event": env.nest, "expected": exp, "observed": got}
+	desc := map[string]interface{}{"config": cfgDesc, "script": steps, "resource": rname, "in_handler": inHandler, "in_query_callback": inQuery, "first_listener_sends_pong_event": env.nest, "expected": exp, "observed": got}
 	if strings.Join(got, "|") != strings.Join(exp, "|") {
 		c.Violation("C08/effect-order:"+c08Diff(exp, got), fmt.Sprintf("script %v on %s: observed effects %v, expected %v", steps, rname, got, exp), desc)
 		return
@@ -645,7 +730,7 @@ func c08One(c *core.Ctx, env *c08Env, steps []c08Step, typ, key, rname string, i
 		}
 	}
 	if nontrivial {
-		c.Distinct(fmt.Sprintf("%v|%v|%v|%s|%v|%v", env.present, env.nlisten, steps, typ, inHandler, env.nest))
+		c.Distinct(fmt.Sprintf("%v|%v|%v|%s|%v|%v|%v", env.present, env.nlisten, steps, typ, inHandler, env.nest, inQuery))
 	}
 }
 
